@@ -172,6 +172,24 @@ pub fn child_use_then_set(args: &[String]) -> i32 {
     0
 }
 
+/// child: the limit is set through the deprecated crate-root entry point; every other entry point and every decoder
+/// must then see that value
+#[allow(deprecated)]
+pub fn child_root_setter(_args: &[String]) -> i32 {
+    let set = apache_avro::max_allocation_bytes(1024);
+    let seen = apache_avro::util::max_allocation_bytes(4096);
+    let mut at = vec![];
+    crate::c05::long(1024, &mut at);
+    at.extend(std::iter::repeat(0x61u8).take(1024));
+    let mut above = vec![];
+    crate::c05::long(1025, &mut above);
+    above.extend(std::iter::repeat(0x61u8).take(1025));
+    let r_at = apache_avro::from_avro_datum(&Schema::Bytes, &mut &at[..], None).is_ok();
+    let r_above = apache_avro::from_avro_datum(&Schema::Bytes, &mut &above[..], None).is_ok();
+    println!("root_set {set} util_sees {seen} len_1024_ok {r_at} len_1025_ok {r_above}");
+    0
+}
+
 /// child for the limit boundary: set the limit, then decode declared lengths around it
 pub fn child_limit(args: &[String]) -> i32 {
     let lim: usize = args[0].parse().unwrap();
@@ -328,6 +346,17 @@ pub fn run(args: &[String]) -> i32 {
         }
         out.pair(&format!("once ((g {}) (g 1024))", apache_avro::util::DEFAULT_MAX_ALLOCATION_BYTES),
             &format!("v{} v{}", apache_avro::util::DEFAULT_MAX_ALLOCATION_BYTES, text.split_whitespace().nth(3).unwrap_or("?")));
+    }
+    // the deprecated crate-root setter and util's are one setting
+    {
+        let o = Command::new(&exe).args(["c19root"]).output().unwrap();
+        let text = String::from_utf8_lossy(&o.stdout).to_string();
+        out.count("root_setter");
+        let want = "root_set 1024 util_sees 1024 len_1024_ok true len_1025_ok false";
+        if text.trim() != want {
+            out.oracle_fail("entry-points-disagree", &format!("observed `{}`, expected `{want}`", text.trim()),
+                "fresh process: apache_avro::max_allocation_bytes(1024) (deprecated crate-root entry point), then util::max_allocation_bytes(4096), then decode bytes of declared length 1024 and 1025");
+        }
     }
     // the limit in force is the one every decoder applies
     for lim in [0usize, 1, 4096, 65536, usize::MAX] {
